@@ -191,8 +191,9 @@ def prog (F : Fns K) (P : Par K) : ProxId → Stmt K
       l2Step F P ;;
       .ifC step (fun s => F.lt (s 0) 1)
         (.set out [x, step] (fun a i => (1 - a 1 0) * a 0 i))
-        -- out.set_zero() is `space.lincomb(0, out, 0, out, out=out)`: it READS out
-        (.set out [out] (fun a i => 0 * a 0 i + 0 * a 0 i))
+        -- out.set_zero() = `space.lincomb(0, out, 0, out, out=out)`; `_lincomb_impl` writes exact
+        -- zeros when a = b = 0, without reading any operand
+        (.set out [] (fun _ => cst 0))
   | .l2 true =>
       .new t1 [x, g] (fun a i => a 0 i - a 1 i) ;;
       .new xnorm [t1] (fun a => cst (F.norm (a 0) * (1 + P.eps))) ;;
